@@ -181,8 +181,9 @@ fn cmd_exec(req: &Value) -> Value {
     let mut trace: Vec<Value> = Vec::new();
     let want_trace = req.get("trace").and_then(|v| v.as_bool()).unwrap_or(false);
     let mut err: Option<String> = None;
+    let ignore_power = req.get("ignore_power").and_then(|v| v.as_bool()).unwrap_or(false);
     for _ in 0..steps {
-        if state.is_halted() {
+        if state.is_halted() && !ignore_power {
             break;
         }
         let pc = state.pc();
